@@ -16,6 +16,7 @@ func init() {
 // commit carries (what stream and snapshot consumers see after merges were rewritten).
 type vBlockLogger struct {
 	mu     sync.Mutex // a logger is called from several blocks' commits at once
+	clones []commit.Commit
 	ids    []uint64
 	chunks []commit.Chunk
 	offs   []uint32
@@ -27,6 +28,7 @@ func (l *vBlockLogger) Append(c commit.Commit) error {
 	defer l.mu.Unlock()
 	l.ids = append(l.ids, c.ID)
 	l.chunks = append(l.chunks, c.Chunk)
+	l.clones = append(l.clones, c.Clone())
 	r := commit.NewReader()
 	for _, u := range c.Updates {
 		if u.Column != "a" {
@@ -138,5 +140,21 @@ func VerifC09Merges() {
 		vndAssert(lg.ids[k] > lastID[b], "commit IDs of a block do not increase in the order the commits were applied")
 		lastID[b] = lg.ids[k]
 	}
+	// C06: a replica fed the stream in emission order converges to the primary
+	replica := vNewWorld(vndParam("cap"), vInt64, 0, Options{})
+	for _, c := range lg.clones {
+		vndAssert(replica.c.Replay(c) == nil, "replay failed")
+	}
+	vndAssert(replica.c.Count() == w.c.Count(), "replica Count differs from the primary")
+	replica.c.QueryAt(r0, func(r Row) error {
+		v, ok := r.Int64("a")
+		vndAssert(ok && uint64(v) == sum0, "replica diverged from the primary (block 0)")
+		return nil
+	})
+	replica.c.QueryAt(r1, func(r Row) error {
+		v, ok := r.Int64("a")
+		vndAssert(ok && uint64(v) == sum1, "replica diverged from the primary (block 1)")
+		return nil
+	})
 	vndObserve("sum0", sum0)
 }
